@@ -425,7 +425,7 @@ def obligations(tier):
             (SoP([(0, 1)]), {(0, 1)}),
         ]
 
-    CVM = cv_menu()
+    EQ_CVM = cv_menu()
 
     def eq_ctrl_body(cx, wrong=False):
         c0, c1, tq = cirq.LineQubit.range(3)
@@ -433,7 +433,7 @@ def obligations(tier):
         mats = []
         ops_ = []
         for side in (1, 2):
-            cv, allowed = CVM[cx.choose(f'cv{side}', len(CVM))]
+            cv, allowed = EQ_CVM[cx.choose(f'cv{side}', len(EQ_CVM))]
             swap = cx.choose(f'listed{side}', 2)  # controls listed as (c0, c1) or (c1, c0)
             ctrls = [c1, c0] if swap else [c0, c1]
             ops_.append(cirq.ControlledOperation(ctrls, cirq.X(tq) ** t, control_values=cv))
